@@ -328,3 +328,27 @@ def p_none(*args, **kwargs):
 
 TARGETS['p_mut_echo'] = p_mut_echo
 TARGETS['p_none'] = p_none
+
+
+_CALLS = {}
+
+
+def p_pool(x, poison=(), fail_after=None, d=0.0):
+    """pool target: x is a unique input id; raises on poison inputs; dies after `fail_after` calls (per worker)"""
+    truth('p-enter', x=x)
+    key = (_os.getpid(), get_ident())
+    n = _CALLS.get(key, 0) + 1
+    _CALLS[key] = n
+    if d:
+        time.sleep(d)
+    if x in poison:
+        truth('p-leave', x=x, how='raise')
+        raise MyError(f'poison {x}')
+    if fail_after is not None and n > fail_after:
+        truth('p-leave', x=x, how='raise')
+        raise MyError(f'worker gives up after {fail_after} calls')
+    truth('p-leave', x=x)
+    return ['r', x]
+
+
+TARGETS['p_pool'] = p_pool
